@@ -11,6 +11,9 @@ real client over SimNet.
   W2  props/_c04w2.py  write programs under back-pressure / reset / cancel /
                        executor compression, Response bodies of every payload
                        kind, client request bodies, real-server sample.
+      props/_c04w3.py  web.FileResponse behind the real server while another
+                       writer changes the served file at a point of the
+                       file-access seam (stat / open / fstat / read).
 """
 from __future__ import annotations
 
@@ -31,7 +34,8 @@ ENUM_IS_EXHAUSTIVE = False  # set by enumerate_cases(): true only for the thorou
 ENUM_RULE = ""
 TECHNIQUE = ("deterministic simulation: real serialisers/writers on a virtual-time loop writing to an in-memory "
              "transport; exhaustive code-point enumeration per position (W1) and seeded write programs with "
-             "back-pressure, reset, cancellation and executor faults (W2); strict reference framer/de-chunker as oracle")
+             "back-pressure, reset, cancellation and executor faults (W2); FileResponse with the served file changed at every "
+             "point of its stat/open/fstat/read sequence; strict reference framer/de-chunker as oracle")
 LEVEL_TEXT = (
     "W1 is an exhaustive input workload (position x code point x placement; every one of the 1,114,112 code points for the "
     "core positions in the thorough tier, a stated subset of code points otherwise) run through the harness - there is no schedule in it and it "
@@ -50,8 +54,9 @@ RULE = (
     "a harmless string); one scenario = one position x a block of code points. Seeded: W2 programs (write_headers, "
     "send_headers, write(n), write_eof(n), set_eof, drain with n in {0,1,2047..2049,65535..65537,...}; chunked / declared "
     "length / neither; deflate/gzip or none; Response/StreamResponse with bytes, Payload, file, text file, async "
-    "iterator, multipart with/without size; client bodies; real server sample) x faults, and W1 positions x random "
-    "hostile strings. Non-trivial: W1 block containing both refused and accepted strings; W2 run in which a fault fired "
+    "iterator, multipart with/without size; client bodies; real server sample; FileResponse (sendfile / read loop / "
+    "NOSENDFILE / compression, Range, HEAD, .gz sibling) with the file truncated, extended, rewritten, replaced or unlinked "
+    "after the k-th stat/open/fstat/read of a request) x faults, and W1 positions x random hostile strings. Non-trivial: W1 block containing both refused and accepted strings; W2 run in which a fault fired "
     "(transport paused the writer, kill, cancel, executor job) or >=3 body calls were made. Distinct = interleaving signature."
 )
 COMPONENTS = {
@@ -60,10 +65,12 @@ COMPONENTS = {
              "aiohttp.connector.TCPConnector", "aiohttp.payload.*", "aiohttp.multipart.MultipartWriter",
              "aiohttp.formdata.FormData", "aiohttp.helpers (cookies, content_disposition_header)",
              "aiohttp.base_protocol.BaseProtocol", "aiohttp.compression_utils.ZLibCompressor",
-             "aiohttp.web AppRunner/TCPSite/RequestHandler (sample)", "http.cookies.SimpleCookie", "yarl.URL"],
+             "aiohttp.web AppRunner/TCPSite/RequestHandler (sample)", "aiohttp.web_fileresponse.FileResponse",
+             "http.cookies.SimpleCookie", "yarl.URL"],
     "stub": ["network (SimNet)", "recording raw peer", "executor (simulated, seeded early/late)",
              "server-side protocol object for W1/W2 responses (BaseProtocol + three attributes; the real RequestHandler "
-             "is used in the real-server sample)", "TLS"],
+             "is used in the real-server sample)", "TLS", "loop.sendfile (simulated: reads the file and writes to the transport)",
+             "file access of FileResponse (pathlib.Path.stat/open, os.stat(fd), read() observed through a shim; the files are real)"],
 }
 ASSUMPTIONS = [
     "the 'supplied' field line for a header is name + ': ' + value encoded as UTF-8 (what aiohttp documents); the "
@@ -75,6 +82,9 @@ ASSUMPTIONS = [
     "set_eof not used to end a compressed body, no compression together with a declared length",
     "after an injected reset / cancel the program stops using the writer (aiohttp closes the connection)",
     "a file on a real temporary file system is used for file bodies; reads go through the simulated executor",
+    "FileResponse: another writer may change the served file between any two file accesses; a response whose declared "
+    "length can no longer be filled may be abandoned by closing the connection (an incomplete message, as after a reset), "
+    "but must not be followed by another response on the same connection; which status a request deserves is C15's subject",
 ]
 
 
@@ -137,10 +147,19 @@ def enumerate_cases(tier, seed):
     else:
         ENUM_IS_EXHAUSTIVE = False
         ENUM_RULE = f"{len(names)} positions x {subset} x 3 placements"
-    return _enum(names, blocks, list(W1.CORE), full)
+    from props import _c04w3 as W3
+
+    fcases = list(W3.enum_file_cases())
+    ENUM_RULE += (f"; before them {len(fcases)} FileResponse cases: every point of the file-access seam (after stat, open, fstat, "
+                  "1st and 2nd read of the first of two requests) x change of the served file (rewritten / truncated / extended in "
+                  "place, replaced by rename, unlinked) x body sent by read loop, simulated sendfile, NOSENDFILE or "
+                  "chunked+deflate x with / without Range")
+    return _enum(names, blocks, list(W1.CORE), full, fcases)
 
 
-def _enum(names, blocks, core, full):
+def _enum(names, blocks, core, full, fcases=()):
+    # the file-seam cases are few and cheap: first, so that they never depend on the enumeration budget
+    yield from fcases
     for rng_ in blocks:
         for nm in names:
             yield {"kind": "w1", "pos": nm, "cps": rng_}
